@@ -2,6 +2,7 @@
 //@ enforce-rec: ctl_process
 //@ replace: process_client remove_client accept_client
 //@ unwindset: ctl_process.0:3
+//@ flags: --object-bits 10
 //@ props: C14
 //@ expect: postcondition>=3 canary=3
 #include "_unit.h"
@@ -10,8 +11,6 @@ void harness(void)
     xv_ghost_havoc();
     xv_ctl_ghost_havoc();
     xv_ctl_g_foreign = nondet_bool(); xv_ctl_g_fev = nondet_int();
-    xv_ctl_g_fd = nondet_int(); xv_ctl_g_reg = nondet_int(); xv_ctl_g_ofd = nondet_int(); xv_ctl_g_oreg = nondet_int();
-    xv_ctl_g_opend = nondet_bool(); xv_ctl_g_oj = nondet_uchar();
     struct ctl *ctl;
     long c0 = xv_ctl_close_calls, r0 = xv_ctl_readable_calls;
     ctl_process(ctl);
